@@ -25,6 +25,8 @@ def maps(mc):
         {'s1': 753, 's2': PRE | 3, 's3': 754, 'k': PRE | 9, 'k0': 2, 'x': 1234567},
         {'s1': sup[0], 's2': sup[1], 's3': sup[-1], 'k': 3, 'k0': 0, 'x': 758},
         {'s1': 404, 's2': 477, 's3': PRE | 7, 'k': PRE | 35, 'k0': 1, 'x': 2147483647},
+        {'s1': 47, 's2': 340, 's3': 754, 'k': 6, 'k0': 1, 'x': -1},           # "whatever integer": proxies report -1
+        {'s1': 340, 's2': 754, 's3': 757, 'k': 7, 'k0': 0, 'x': -754},
     ]
     known = list(mc.KNOWN_PROTOCOL_VERSIONS)
     for m in ms:
